@@ -16,8 +16,10 @@ from . import stream as st
 from .c06 import load, FUNCS
 from .. import framework
 
-LOADERS = ("PVL", "ODL", "PDS3", "Omni")
-REFD = {"PVL": "PVL", "ODL": "ODL", "PDS3": "ODL", "Omni": "Omni"}
+LOADERS = ("PVL", "ODL", "PDS3", "ISIS", "Omni")
+REFD = {"PVL": "PVL", "ODL": "ODL", "PDS3": "ODL", "ISIS": "ISIS", "Omni": "Omni"}
+PREFIXES = {"": [], "ingroup": ["GROUP", "=", "a"], "afterstmt": ["a", "=", "1", "OBJECT", "=", "b"],
+            "nested": ["OBJECT", "=", "a", "GROUP", "=", "b", "b", "=", "1"]}
 
 
 def same(m, items):
@@ -83,15 +85,17 @@ class Stream(Harness):
 
     @property
     def bounds(self):
-        return ("loader %s, every stream of at most %d tokens over the %d-lexeme vocabulary (lazy choices), oracle = "
-                "independent recogniser of the statement grammar" % (self.dialect, self.k, len(st.VOCAB)))
+        return ("loader %s, the fixed token prefix %s followed by every stream of at most %d tokens over the %d-lexeme "
+                "vocabulary (lazy choices), oracle = independent recogniser of the statement grammar" % (
+                    self.dialect, PREFIXES[getattr(self, "prefix", "")], self.k, len(st.VOCAB)))
 
     def inputs(self, ctx):
-        return {"stream": st.LazyStream(ctx, self.k)}
+        pre = [st.VOCAB.index(t) for t in PREFIXES[getattr(self, "prefix", "")]]
+        return {"stream": st.LazyStream(ctx, self.k, pre)}
 
     def prop_fn(self, L, inp):
         picked = []
-        counter = st.Counter(40 * (self.k + 2))
+        counter = st.Counter(40 * (self.k + 12))
         lx = st.make_lexer(L, inp["stream"], picked, counter)
         try:
             m = load(L, self.dialect, lexer_fn=lx)
@@ -117,8 +121,13 @@ class Stream(Harness):
 
 
 def obligations(tier):
-    k = 6 if tier == "quick" else 8
-    return [Stream(dialect=d, k=k, shard_bits=7 if tier == "quick" else 10) for d in LOADERS]
+    quick = tier == "quick"
+    obs = []
+    for d in LOADERS:
+        obs.append(Stream(dialect=d, k=5 if quick else 7, prefix="", shard_bits=6 if quick else 10))
+        for pre in ("ingroup", "afterstmt", "nested"):
+            obs.append(Stream(dialect=d, k=4 if quick else 6, prefix=pre, shard_bits=5 if quick else 9))
+    return obs
 
 
 def main(tier="quick", seed=0, jobs=16, only=None, time_scale=1.0):
